@@ -478,6 +478,10 @@ func (h *hist) length() int {
 }
 
 func main() {
+	if _, ok := vk.InChild(); ok {
+		e2eChild()
+		return
+	}
 	run := vk.Start("C06")
 	if rep, ok := vk.ReplayInput(); ok {
 		if sd, ok := rep["seed"].(float64); ok {
@@ -533,6 +537,7 @@ func main() {
 		}()
 	}
 	wg.Wait()
+	e2eTier(run)
 	run.Set("histories", nSteady+nHostile)
 	run.FloorCounter("nacks", 5000)
 	run.FloorCounter("seqnos_named", 10000)
